@@ -26,6 +26,7 @@ type simIter struct {
 	lastSnapRev uint64               // revision of the newest snapshot passed to Next
 	openWatch   <-chan struct{}      // open channel returned by the last Next (nil if none)
 	openAtRev   uint64               // committed table revision when openWatch was handed out
+	settledBefore bool               // table.settled before this iterator was created
 	delivered   int
 }
 
@@ -96,8 +97,11 @@ func (s *Sim) abortIterators(what string, wtxn statedb.WriteTxn) {
 		keep := t.iters[:0]
 		for _, it := range t.iters {
 			if !it.committed && it.createdIn == what {
-				s.Logf("%s close iterator %s created in the aborted transaction", what, it.name)
-				it.it.Close()
+				// The registration was aborted with the transaction: the iterator is simply dropped by its owner (kept
+				// reachable here so that no cleanup runs). Nothing may be retained on its behalf afterwards.
+				s.Logf("%s drop iterator %s created in the aborted transaction", what, it.name)
+				s.zombies = append(s.zombies, it.it)
+				t.settled = it.settledBefore
 				continue
 			}
 			if it.openWatch != nil && isClosed(it.openWatch) {
@@ -139,6 +143,7 @@ func (s *Sim) iterOp(what string, wtxn statedb.WriteTxn, t *simTable, locked boo
 		s.iterSeq++
 		si := &simIter{name: fmt.Sprintf("%s#%d", t.name, s.iterSeq), it: it, table: t, creationRev: t.tbl.Revision(wtxn), createdIn: what,
 			replay: map[string]Obs{}, gotDelete: map[string][]uint64{}}
+		si.settledBefore = t.settled
 		t.iters = append(t.iters, si)
 		t.settled = false
 		return
@@ -310,7 +315,7 @@ func (s *Sim) IterStep(i int) {
 		if s.Rng.IntN(6) == 0 {
 			s.Logf("%s %s.Changes() in a transaction that aborts", what, t.name)
 			wtxn.Abort()
-			it.Close()
+			s.zombies = append(s.zombies, it) // dropped, not closed
 		} else {
 			s.Logf("%s %s.Changes() -> %s", what, t.name, si.name)
 			wtxn.Commit()
@@ -335,6 +340,29 @@ func (s *Sim) IterStep(i int) {
 			}
 		}
 		s.iterNext(what+" Next(fresh)", it, s.DB.ReadTxn(), t.committed)
+	case x < 80 && len(s.Tabs) > 1:
+		// Next with a write transaction on ANOTHER table that was opened before a later commit to the iterated table:
+		// only what was committed when that write transaction was created may be delivered.
+		it := live[s.Rng.IntN(len(live))]
+		var other *simTable
+		for _, o := range s.Tabs {
+			if o != t {
+				other = o
+			}
+		}
+		w := s.DB.WriteTxn(other.tbl)
+		outer := s.open
+		s.open = w
+		atCreation := t.committed
+		s.Logf("%s open WriteTxn(%s), then commit to %s, then Next(that WriteTxn)", what, other.name, t.name)
+		s.forceSet = []*simTable{t}
+		s.RunTxn(5000 + i)
+		s.forceSet = nil
+		if !s.Failed {
+			s.iterNext(what+" Next(older wtxn on "+other.name+")", it, w, atCreation)
+		}
+		w.Abort()
+		s.open = outer
 	case x < 85:
 		it := live[s.Rng.IntN(len(live))]
 		s.Logf("%s close %s", what, it.name)
@@ -365,6 +393,10 @@ func (s *Sim) IterStep(i int) {
 
 // CloseIterators closes all iterators (end of history).
 func (s *Sim) CloseIterators() {
+	for _, z := range s.zombies {
+		z.Close()
+	}
+	s.zombies = nil
 	for _, t := range s.Tabs {
 		for _, it := range t.iters {
 			it.it.Close()
